@@ -2,6 +2,8 @@
 
 package ntske
 
+import "time"
+
 // accessors for the harnesses of other packages (verif builds only)
 func VerifSetFetcherData(f *Fetcher, cookies [][]byte) {
 	f.data.Cookie = cookies
@@ -9,3 +11,15 @@ func VerifSetFetcherData(f *Fetcher, cookies [][]byte) {
 }
 
 func VerifFetcherCookies(f *Fetcher) [][]byte { return f.data.Cookie }
+
+// VerifProviderAge makes a provider that holds only its current key look d older (generation time and the
+// key's validity window move back by d): the state a provider is in d after it generated that key.
+func VerifProviderAge(p *Provider, d time.Duration) {
+	p.mu.Lock()
+	defer p.mu.Unlock()
+	p.generatedAt = p.generatedAt.Add(-d)
+	k := p.keys[p.currentID]
+	k.Validity.NotBefore = k.Validity.NotBefore.Add(-d)
+	k.Validity.NotAfter = k.Validity.NotAfter.Add(-d)
+	p.keys[p.currentID] = k
+}
